@@ -227,7 +227,7 @@ def gen_history(rng, tier):
         elif r < 82:
             steps.append((H_READY, i, 0, 0, rng.below(1000)))
         elif r < 88:
-            steps.append((H_CLOSE_PEER, i, 0, 0, 0))
+            steps.append((H_CLOSE_PEER, i, 0, 0, rng.below(1000)))
         elif r < 94:
             steps.append((H_SPIN, 0, 0, 0, rng.below(8)))
         else:
